@@ -68,6 +68,25 @@ META.update({
    note=SIMNOTE, tech="bounded-exhaustive enumeration of closed systems and argument grids on the real simulator with differential (run-twice, filtered-vs-projection) oracles"),
 })
 
+META.update({
+ "C06": dict(engine="E2", cat="model_checking", ref="3 C06",
+   text="Complete enumeration of the transition draw's output space: for every validated probability vector of a corpus (1-5 targets incl. both pseudo-states, sums from tiny to exactly 1, entries at f32 resolution limits), placed on one of the 13 events of a state whose other events carry different vectors, all 2^23 distinct values of the uniform draw go through the real State::sample_state; exact outcome counts must equal p_i x 2^23 within the resolution of the draw. Probe machines tie the framework's observable effect (action / END / SIGNAL) to the sampled target for every one of the 2^23 words; thorough confirms the 512-to-1 word-to-value map over the full 2^32 word space.",
+   note="The draw is rand's gen_range(0f32..1f32) = (word >> 9) / 2^23; vectors from a fixed menu of probabilities.",
+   tech="exhaustive enumeration of all 2^23 outcomes of the random draw through the real sampling function (exact counting, no statistics)"),
+ "C11": dict(engine="E3", cat="fault_enumeration", ref="4 C11",
+   text="Valid side: every machine of the generated families plus size classes crossing every internal buffer boundary of the decode path (incl. the largest machines that still fit 1 MiB) must round-trip (string, name, Debug, framework behaviour). Hostile side: exhaustive single-fault enumeration of valid encodings - every truncation, every substitution and insertion of 20 symbols (incl. multibyte) at every position, every bit flip and truncation at the compressed and at the bincode layer, every version prefix - all short strings over a 12-symbol alphabet, the legacy v1 parser with a harness-side encoder (every header field / distribution parameter corner, single faults), and zlib bombs up to 1 GiB; oracle: no panic, Err or a machine that validates, heap peak bounded by a constant plus the input length (counting allocator).",
+   note="All single faults (thorough: all pairs of bit flips of the no-op machine), not all strings; heap measured per thread around the call.",
+   tech="exhaustive single-fault enumeration of valid encodings plus bounded-exhaustive short-string enumeration, with crash containment and a heap-peak oracle"),
+ "C12": dict(engine="E3", cat="exploration", ref="4 C12",
+   text="Bounded-exhaustive enumeration of machine literals assembled through the public constructors and fields: every numeric slot (machine fractions, transition probabilities, every parameter / start / max of all 11 distribution families in 7 positions) set to each value of a 22-value corner menu (NaN, infinities, negative zero, subnormals, one ulp beyond each bound), plus structural faults; the four judgements Machine::new / validate / Framework::new / from_str(serialize) must agree, accepted machines must satisfy an independent well-formedness predicate, build frameworks for fractions in [0,1] and run.",
+   note="One slot at a time (thorough: all pairs within a distribution and pairs of fractions); the distribution-domain predicate is no stronger than rand_distr 0.4.3's.",
+   tech="bounded-exhaustive input enumeration against an independent reference predicate with a four-way differential between the acceptance paths"),
+ "C13": dict(engine="E3", cat="exploration", ref="4 C13",
+   text="All validated distributions of a parameter corner grid over the 11 families x (start,max) corner pairs, each sampled under every RNG script that deviates from a fair stream by a prefix of at most d extreme words (d = 2 quick / 3 thorough, 9-word menu) or a 64-word constant prefix, followed by a fair tail; oracle: returns within 1e5 draws and 250 ms (watchdog-isolated helper processes for Binomial), no panic, value not NaN, >= 0, <= max when set; also through the framework's consumers (timeout, duration, limit, counter).",
+   note="Deviation-bounded enumeration of RNG scripts (iterated bound d); the fair tail is a fixed PRNG. Known finding: rand_distr Binomial (known_findings.txt).",
+   tech="deviation-bounded exhaustive enumeration of RNG scripts (environment answers) over a bounded-exhaustive parameter grid, with hang containment"),
+})
+
 def built_ids():
     # a check is registered once its module exists in the harness
     src = open(os.path.join(HERE, "harness", "src", "main.rs")).read()
